@@ -83,17 +83,18 @@ theorem lastW_map_encW (kgc : Nat) (k ns ek : Bytes) (hk : k.length < 4294967296
     · rw [if_pos (hcond.mpr hc), if_pos hc]; exact this _
     · rw [if_neg (fun h => hc (hcond.mp h)), if_neg hc]; exact this _
 
+theorem lastW_single_ne (w : Bytes × Option Bytes) (k : Bytes) (init : Option Bytes) (h : w.1 ≠ k) :
+    lastW [w] k init = init := by
+  simp only [lastW, List.foldl_cons, List.foldl_nil]
+  rw [if_neg h]
+
 theorem lastW_rawWrites (kgc : Nat) (k ns ek : Bytes) (hk : k.length < 4294967296) (hn : ns.length ≤ 255)
     (a : Act) (ha : a.WF) (init : Option Bytes) :
     lastW (a.rawWrites kgc) (Keys.dbKey kgc k ns ek) init = specFold a.lwrites k ns ek init := by
   cases a with
   | apply subj nss => exact lastW_map_encW kgc k ns ek hk hn _ ha init
-  | timerPut subj t =>
-    simp only [Act.rawWrites, Act.lwrites, lastW, specFold, List.foldl_cons, List.foldl_nil]
-    rw [if_neg (timerKey_ne_dbKey kgc subj k ns ek t)]
-  | timerDel subj t =>
-    simp only [Act.rawWrites, Act.lwrites, lastW, specFold, List.foldl_cons, List.foldl_nil]
-    rw [if_neg (timerKey_ne_dbKey kgc subj k ns ek t)]
+  | timerPut subj t => exact lastW_single_ne _ _ init (timerKey_ne_dbKey kgc subj k ns ek t)
+  | timerDel subj t => exact lastW_single_ne _ _ init (timerKey_ne_dbKey kgc subj k ns ek t)
 
 theorem lastW_acts (kgc : Nat) (k ns ek : Bytes) (hk : k.length < 4294967296) (hn : ns.length ≤ 255) :
     ∀ (acts : List Act), (∀ a ∈ acts, a.WF) → ∀ init,
@@ -287,7 +288,7 @@ theorem firedActs_lwrites (b : Batch) : b.firedActs.flatMap Act.lwrites = [] := 
   simp only [Batch.firedActs, List.flatMap_map]
   induction b.fired with
   | nil => rfl
-  | cons f fs ih => simp [List.flatMap_cons, Act.lwrites, ih]
+  | cons f fs _ => simp [List.flatMap_cons, Act.lwrites]
 
 /-- the state mutations of one key result, in application order -/
 def KeyResult.lwrites (kr : KeyResult) : List LWrite := kr.muts.flatMap (nsWrites kr.key)
@@ -298,7 +299,7 @@ theorem keyResult_acts_lwrites (kr : KeyResult) : kr.acts.flatMap Act.lwrites = 
   have : (kr.timers.flatMap fun t => (Act.timerPut kr.key t).lwrites) = [] := by
     induction kr.timers with
     | nil => rfl
-    | cons t ts ih => simp [List.flatMap_cons, Act.lwrites, ih]
+    | cons t ts ih => simp [List.flatMap_cons, Act.lwrites]
   simp only [Act.lwrites] at this
   rw [this, List.nil_append]
 
